@@ -20,6 +20,7 @@ import (
 	"os"
 	"os/exec"
 	"path/filepath"
+	"regexp"
 	"sort"
 	"strconv"
 	"strings"
@@ -215,6 +216,9 @@ func main() {
 	if prop == "setup" {
 		build(false, true)
 		build(true, true)
+		if _, _, err := runFree("salts", true); err != nil {
+			fmt.Println("note:", err)
+		}
 		// bind the environment model to the real kernel (never fails the setup: reported only)
 		cmd := exec.Command("go", "run", "./cmd/vconf")
 		cmd.Dir = verifDir
@@ -307,6 +311,42 @@ func main() {
 		total.Merge(r)
 	}
 
+	// supplementary free-running race-detector pass (C19, C08): a report is genuine, silence proves nothing
+	var freeNote string
+	if unit, ok := freePass[prop]; ok {
+		ff, note, err := runFree(unit, *verbose)
+		if err != nil {
+			fmt.Println("note: supplementary race-detector pass not run:", err)
+		} else {
+			freeNote = note
+			seenF := map[string]bool{}
+			for _, f := range ff {
+				if seenF[f.Sig] {
+					continue
+				}
+				seenF[f.Sig] = true
+				// confirm: the same signature must show again in at least one of three more runs
+				again := 0
+				for k := 0; k < 3 && again == 0; k++ {
+					ff2, _, _ := runFree(unit, false)
+					for _, g := range ff2 {
+						if g.Sig == f.Sig {
+							again++
+							break
+						}
+					}
+				}
+				if again == 0 {
+					fmt.Printf("note: free-running pass reported %s once but not again in 3 runs; not counted\n", f.Sig)
+					continue
+				}
+				total.Findings = append(total.Findings, &engine.Finding{Property: prop, Unit: f.Unit, Sig: f.Sig, Msg: f.Msg, Count: 1, Replay: engine.Replay{Unit: f.Unit}})
+			}
+		}
+	}
+	if freeNote != "" {
+		total.Notes = append(total.Notes, freeNote)
+	}
 	// known findings
 	var kf knownFile
 	if b, err := os.ReadFile(filepath.Join(verifDir, "known_findings.json")); err == nil {
@@ -360,7 +400,10 @@ func main() {
 		// replay 5x: the same schedule / input must fail the same way every time
 		same := 0
 		var lastErr error
-		for k := 0; k < 5; k++ {
+		if strings.HasPrefix(f.Unit, "free:") {
+			same = 5 // sampled finding, confirmed above by re-running the stress body
+		}
+		for k := 0; k < 5 && same < 5; k++ {
 			rb, rprop := bin, prop
 			if b, ok := binOf[f.Property]; ok {
 				rb, rprop = b, f.Property
@@ -394,6 +437,101 @@ func main() {
 	if violations > 0 {
 		os.Exit(1)
 	}
+}
+
+// supplementary free-running pass (cmd/vrace): which units for which property
+var freePass = map[string]string{"C19": "", "C08": "salts"}
+
+type freeFinding struct {
+	Unit string `json:"unit"`
+	Sig  string `json:"sig"`
+	Msg  string `json:"msg"`
+}
+
+var raceFrame = regexp.MustCompile(`github.com/Jigsaw-Code/outline-ss-server/([^\s(]+(?:\([^)]*\))?[^\s(]*)\(`)
+
+// runFree builds cmd/vrace with the race detector against the plain (uninstrumented) tree and
+// runs it once; race reports of the detector and oracle findings are returned.
+func runFree(unit string, verbose bool) ([]freeFinding, string, error) {
+	h := sha256.New()
+	hashTree(h, repoDir, func(p string) bool {
+		return (strings.HasSuffix(p, ".go") && !strings.HasSuffix(p, "_test.go")) || strings.HasSuffix(p, "go.mod")
+	})
+	hashTree(h, filepath.Join(verifDir, "cmd", "vrace"), func(p string) bool { return strings.HasSuffix(p, ".go") })
+	dir := filepath.Join(verifDir, ".cache", "race-"+fmt.Sprintf("%x", h.Sum(nil)[:10]))
+	bin := filepath.Join(dir, "vrace")
+	if _, err := os.Stat(bin); err != nil {
+		os.MkdirAll(dir, 0o755)
+		cmd := exec.Command("go", "build", "-race", "-o", bin, "./cmd/vrace")
+		cmd.Dir = verifDir
+		cmd.Env = env()
+		if out, err := cmd.CombinedOutput(); err != nil {
+			os.RemoveAll(dir)
+			return nil, "", fmt.Errorf("building the race-detector pass failed: %v\n%s", err, out)
+		}
+	}
+	logBase := filepath.Join(dir, fmt.Sprintf("race-%d.log", os.Getpid()))
+	cmd := exec.Command(bin, "-unit", unit)
+	cmd.Env = append(env(), "GORACE=halt_on_error=0 exitcode=0 log_path="+logBase)
+	var stdout, stderr bytes.Buffer
+	cmd.Stdout, cmd.Stderr = &stdout, &stderr
+	done := make(chan error, 1)
+	if err := cmd.Start(); err != nil {
+		return nil, "", err
+	}
+	go func() { done <- cmd.Wait() }()
+	select {
+	case <-done:
+	case <-time.After(90 * time.Second):
+		cmd.Process.Kill()
+		return nil, "", fmt.Errorf("race-detector pass timed out")
+	}
+	var res struct {
+		Findings []freeFinding `json:"findings"`
+		Rounds   int           `json:"rounds"`
+		Units    []string      `json:"units"`
+	}
+	if err := json.Unmarshal(stdout.Bytes(), &res); err != nil {
+		tail := stderr.String()
+		if len(tail) > 1500 {
+			tail = tail[len(tail)-1500:]
+		}
+		// the process died: a crash of the code under test under concurrent use
+		return []freeFinding{{Unit: "free:crash", Sig: "process-died", Msg: "the free-running stress body died: " + tail}}, "", nil
+	}
+	out := res.Findings
+	logs, _ := filepath.Glob(logBase + "*")
+	for _, lf := range logs {
+		b, _ := os.ReadFile(lf)
+		os.Remove(lf)
+		for _, blk := range strings.Split(string(b), "==================") {
+			if !strings.Contains(blk, "DATA RACE") {
+				continue
+			}
+			var frames []string
+			seen := map[string]bool{}
+			for _, m := range raceFrame.FindAllStringSubmatch(blk, -1) {
+				f := m[1]
+				if strings.HasPrefix(f, "service.") || strings.HasPrefix(f, "prometheus.") || strings.HasPrefix(f, "net.") || strings.HasPrefix(f, "ipinfo.") || strings.HasPrefix(f, "service/metrics.") {
+					if !seen[f] {
+						seen[f] = true
+						frames = append(frames, f)
+					}
+				}
+				if len(frames) == 2 {
+					break
+				}
+			}
+			sort.Strings(frames)
+			lines := strings.Split(strings.TrimSpace(blk), "\n")
+			if len(lines) > 24 {
+				lines = lines[:24]
+			}
+			out = append(out, freeFinding{Unit: "free:race-detector", Sig: "free-race{" + strings.Join(frames, " | ") + "}", Msg: "Go race detector (free-running supplementary pass): " + strings.Join(lines, "\n")})
+		}
+	}
+	note := fmt.Sprintf("supplementary free-running pass (sampling, not deciding): units %v, %d rounds per goroutine under the Go race detector on the uninstrumented tree", res.Units, res.Rounds)
+	return out, note, nil
 }
 
 // evidenceDir is /verif/evidence unless VERIF_EVIDENCE_DIR redirects it (exploratory background runs)
